@@ -6,7 +6,7 @@
 #        (/verif/.cache/confirm/<ID>.txt.suite, summary appended to <ID>.txt as "SUITE ...")
 export GOFLAGS=-mod=mod GOPROXY=off GOSUMDB=off GOTOOLCHAIN=local
 phase="$1"; shift
-WT=/tmp/confirm-wt-$phase
+WT=${CONFIRM_WT:-/tmp/confirm-wt-$phase}
 mkdir -p /verif/.cache/confirm
 [ -d $WT ] || git -C /repo worktree add -q --detach $WT HEAD
 for id in "$@"; do
